@@ -29,11 +29,18 @@ theorem natDigits_spec (n : Nat) : natDigits n ≠ [] ∧ ∀ d ∈ natDigits n,
 def FloatParts (s : String) : Prop :=
   ∃ ds fs : List Char, s.toList = ds ++ '.' :: fs ∧ ds ≠ [] ∧ fs ≠ [] ∧ (∀ d ∈ ds, isDigit d = true) ∧ (∀ d ∈ fs, isDigit d = true)
 
+/-- **Contract of `Display for Primitive::Number`** assumed by the text-level theorems (number tokens are
+opaque in the printer model): the text printed for a non-integral number is a float literal `ddd.ddd` of the
+grammar.  Its value half — `text.parse::<f64>()` gives back the very same `f64`, and the text is what Rust's
+`f64` Display prints — is checked by the harness on every number literal of every generated program
+(`number-display-changes-value`), and the printed program is diffed byte-for-byte. -/
+abbrev NumTokenOk (s : String) : Prop := FloatParts s
+
 /-- trees whose printed text stays inside the lexer's sub-language: plain names, float literals, no
 `range` sugar -/
 def TextOK : PExp → Prop
   | .int _ => True
-  | .num s => FloatParts s
+  | .num s => NumTokenOk s
   | .bool _ => True
   | .var n => plainWord n.toList = true
   | .call n args => plainWord n.toList = true ∧ n ≠ "range" ∧ TextOKs args
